@@ -1,6 +1,6 @@
 import re
 """Scanner-level properties: C03 (chain walk), C08 (filtered output), C14 (statistics), C18 (truncation)."""
-import os, struct, sys, json, shutil
+import os, struct, sys, json, shutil, subprocess
 import fplib as L
 import fpgen as G
 from checks_unit import corr, report_dis
@@ -439,6 +439,31 @@ def run_c14(ck, ctx):
     ck.corr['stats_model'] = dict(cases=len(reqs), disagreements=len(dis))
     ck.sample(dict(request=reqs[0][:120] + '...', model=model[0][:300]))
     report_dis(ck, 'stats_model', dis)
+    # more than 4 GiB of payload: the counters must not wrap (fixed 9399d7f: the reader's u32 payload sum stepped over u32::MAX).
+    # The input is a SPARSE file - 430 000 headers announcing 10 000 payload bytes each, the payloads are holes - and the command skips
+    # payloads by seeking, so only the headers are ever read (about 1.7 GB on disk for a few seconds, removed afterwards).
+    wd2 = os.path.join(L.CACHE, 'tmp', f'c14big_{os.getpid()}'); os.makedirs(wd2, exist_ok=True)
+    big = os.path.join(wd2, 'over4g.raw'); npk, psz = 430000, 10000
+    try:
+        with open(big, 'wb') as fh:
+            for i in range(npk):
+                fh.write(G.rdh_bytes(dict(G.RDH_DEFAULT, link=i % 2, fee=0x1000 | (i % 2), orbit=10 + i // 2, page=0, stop=0, size=64 + psz, off=64 + psz, pkt=i & 0xFF)))
+                fh.seek(psz, 1)
+            fh.truncate(npk * (64 + psz))
+        for args in (['check', 'sanity', '-m'], ['view', 'rdh']):
+            sp = os.path.join(wd2, 'st.json')
+            if os.path.exists(sp): os.remove(sp)
+            r = subprocess.run([L.BIN, big] + args + ['-S', sp, '-D', 'json'], stdout=subprocess.DEVNULL, stderr=subprocess.PIPE, timeout=900)
+            ck.case(('over_4gib', tuple(args))); ck.count('over_4gib_runs')
+            st = json.load(open(sp))['rdh_stats'] if os.path.exists(sp) else None
+            if st is None or st['rdhs_seen'] != npk or st['payload_size'] != npk * psz:
+                ck.violation('stats', {'what': 'statistics of an input with more than 4 GiB of payload differ from the ground truth',
+                                       'args': args, 'expected': {'rdhs_seen': npk, 'payload_size': npk * psz},
+                                       'got': None if st is None else {'rdhs_seen': st['rdhs_seen'], 'payload_size': st['payload_size']},
+                                       'input': '%d packets, each: RDH announcing %d payload bytes (zeros); links 0 and 1 alternating' % (npk, psz),
+                                       'exit': r.returncode}, key=None)
+    finally:
+        shutil.rmtree(wd2, ignore_errors=True)
 
 
 # =============================================================== C18
